@@ -67,7 +67,7 @@ def ts_queries():
             tail = extra
         frm = 'int1.tt AS t JOIN mindsdb.tp' if side == 'right' else 'mindsdb.tp JOIN int1.tt AS t'
         sql = f'SELECT * FROM {frm}' + (' WHERE ' + ' AND '.join(conds) if conds else '') + tail + lim
-        for window, ng in ((1, 0), (2, 1), (2, 2)):
+        for window, ng in ((1, 0), (2, 1), (2, 2), (2, None)):
             out.append((sql, (window, ng)))
     return out
 
